@@ -278,6 +278,9 @@ func buildRestApiWithParameters(ctx *parser.MethodDeclarationContext) {
 		for _, modifier := range modifiers {
 			childType := reflect.TypeOf(modifier.GetChild(0))
 			if childType.String() == "*parser.AnnotationContext" {
+				if modifier.GetChild(0).(*parser.AnnotationContext).QualifiedName() == nil {
+					continue
+				}
 				qualifiedName := modifier.GetChild(0).(*parser.AnnotationContext).QualifiedName().GetText()
 				if qualifiedName == "RequestBody" {
 					hasRequestBody = true
